@@ -125,6 +125,7 @@ impl Header {
 //@@end
 }
 
+#[derive(Copy, Clone)]
 pub struct Options {
   pub reserved: u32, pub maximum_alignment: usize, pub capacity: Option<u32>, pub minimum_segment_size: u32,
   pub maximum_retries: u8, pub unify: bool, pub magic_version: u16, pub freelist: Freelist,
@@ -255,6 +256,96 @@ impl Memory {
        && m.header_ptr == Either::<u32, Header>::Right(Header { allocated: (opts.reserved + 1) as u32, min_segment_size: opts.minimum_segment_size, discarded: 0 })), // [C16]
 //@@end
 }
+
+// ---- Memory::map_anon (anonymous mmap): the body of the closure handed the fresh mapping, as a fragment -------------------
+/// byte pointer into the fresh mapping: only its offset from the mapping's base is modelled
+#[derive(Copy, Clone)]
+pub struct P8 { pub off: usize }
+impl P8 {
+  pub fn add(self, n: usize) -> (r: P8) requires self.off + n <= usize::MAX, ensures r.off == self.off + n { P8 { off: self.off + n } }
+  pub fn sub(self, n: usize) -> (r: P8)
+    requires n <= self.off, // [C16]
+    ensures r.off == self.off - n { P8 { off: self.off - n } }
+  #[verifier::external_body]
+  pub fn raw(self) -> (r: *mut u8) { unimplemented!() }
+}
+pub struct MmapTok { pub cap: usize }
+impl MmapTok {
+  pub fn len(&self) -> (r: usize) ensures r == self.cap { self.cap }
+  pub fn as_mut_ptr(&mut self) -> (r: P8) ensures r.off == 0, *final(self) == *old(self) { P8 { off: 0 } }
+}
+impl St {
+  /// `write_sanity(freelist, magic_version, slice::from_raw_parts_mut(p, len))`
+  #[verifier::external_body]
+  pub fn write_sanity_ptr(&mut self, p: P8, len: usize, freelist: u8, magic_version: u16)
+    requires p.off as int + len as int <= old(self).buf_cap@, len >= 8, // [C16 C09]
+    ensures final(self).sanity_at@ == Some((p.off as int, len as int, freelist, magic_version)),
+      final(self).buf_cap == old(self).buf_cap, final(self).zeroed == old(self).zeroed, final(self).header_at == old(self).header_at,
+  { unimplemented!() }
+  /// `p.cast::<H>().write(h)`
+  #[verifier::external_body]
+  pub fn write_header_ptr(&mut self, p: P8, h: Header)
+    requires p.off as int + size_of::<Header>() as int <= old(self).buf_cap@, p.off as int % (align_of::<Header>() as int) == 0, // [C16]
+    ensures final(self).header_at@ == Some((p.off as int, h)),
+      final(self).buf_cap == old(self).buf_cap, final(self).zeroed == old(self).zeroed, final(self).sanity_at == old(self).sanity_at,
+  { unimplemented!() }
+}
+pub struct IoError {}
+pub fn invalid_input(e: Error) -> IoError { IoError {} }
+pub const MMAP: FlagTok = FlagTok { bits: 2 };
+impl BackendTok { pub fn anon(m: MmapTok, o: Options) -> BackendTok { BackendTok {} } }
+pub struct MemoryAnon {
+  pub cap: u32, pub reserved: usize, pub header_offset: usize, pub refs: RefTok, pub flag: FlagTok, pub ptr: *mut u8, pub header_ptr: Either<u32, Header>,
+  pub backend: BackendTok, pub data_offset: usize, pub unify: bool, pub magic_version: u16, pub version: u16,
+  pub freelist: Freelist, pub read_only: bool, pub max_retries: u8, pub lock_meta: bool,
+}
+impl MemoryAnon {
+  /// `self.mlock(offset, len)`: checks the range against the mapping itself and fails when it is out of bounds
+  #[verifier::external_body]
+  pub fn mlock(&self, offset: usize, len: usize) -> (r: Result<(), IoError>)
+  { unimplemented!() }
+}
+impl Options {
+  #[verifier::external_body]
+  pub fn lock_meta(&self) -> (r: bool) { unimplemented!() }
+}
+
+//@@frag file=memory.rs scope="impl<R: RefCounter, PR: PathRefCounter, H: Header> Memory<R, PR, H> {" fn=map_anon from="/let map_cap = mmap\.len\(\);/" stmts=11 name=map_anon__body params="st: &mut St, mmap: MmapTok, opts: Options" ret="Result<MemoryAnon, IoError>" result="r__" props=C16,C09
+//@subst /^(\s*)let map_cap/ => \1let mut mmap = mmap; let map_cap
+//@subst /check_capacity::<H>\((.+?)\)\.map_err\(invalid_input\)\?/ => match check_capacity::<Header>(\1) { Ok(x) => x, Err(e) => { return Err(invalid_input(e)); } }
+//@subst /ptr::write_bytes\(ptr, 0, map_cap\);/ => st.zero_all(map_cap);
+//@subst /super::write_sanity\(\s*freelist as u8,\s*magic_version,\s*slice::from_raw_parts_mut\((.+?), (mem::align_of::<H>\(\)|\d+)\),?\s*\);/ => st.write_sanity_ptr(\1, \2, freelist_u8(freelist), magic_version);
+//@subst /header_ptr\s*\.cast::<H>\(\)\s*\.write\((.+?)\);/ => st.write_header_ptr(header_ptr, \1);
+//@subst /\bH\b/ => Header
+//@subst /R::new\(1\)/ => RefTok::new(1)
+//@subst /MemoryFlags::MMAP/ => MMAP
+//@subst /MemoryBackend::AnonymousMmap \{ buf: mmap, opts \}/ => BackendTok::anon(mmap, opts)
+//@subst /let this = Self \{/ => let this = MemoryAnon {
+//@subst /\bptr,\n/ => ptr: ptr.raw(),\n
+//@subst /(?<![:\w])mem::(size_of|align_of)/ => core::mem::\1
+//@subst /\n(\s*)unsafe \{/ => \n\1let r__: Result<MemoryAnon, IoError> = unsafe {
+//@subst /Ok\(this\)\s*\}\s*$/ => Ok(this) };
+//@contract
+  requires
+    layout_ok::<Header>(), size_of::<Header>() <= 0x1000, align_of::<Header>() == 8, // Header is #[repr(C, align(8))]
+    opts.reserved <= u32::MAX - 0x4000_0000,
+    mmap.cap <= u32::MAX as usize, // the mapping was created with the u32 capacity of the options
+    old(st).buf_cap@ == mmap.cap as int, old(st).sanity_at@ is None, old(st).header_at@ is None,
+  ensures
+    spec_data_offset::<Header>(opts.reserved as int, opts.unify) > mmap.cap as int ==> r.is_err(), // [C16 C09]
+    r matches Ok(m) ==> m.data_offset as int == spec_data_offset::<Header>(opts.reserved as int, opts.unify), // [C16]
+    r matches Ok(m) ==> m.reserved == opts.reserved as usize && m.cap as usize == mmap.cap && m.unify == opts.unify
+        && !m.read_only && m.magic_version == opts.magic_version && m.version == CURRENT_VERSION && m.freelist == opts.freelist
+        && m.max_retries == opts.maximum_retries && m.refs.n == 1 && m.flag.bits == 2
+        && m.header_offset as int == spec_header_offset::<Header>(opts.reserved as int, opts.unify), // [C16]
+    r matches Ok(m) ==> final(st).buf_cap@ == m.cap as int && final(st).zeroed@ == m.cap as int, // [C16 C08]
+    r matches Ok(m) ==> (opts.unify ==>
+          final(st).sanity_at@ == Some((opts.reserved as int, 8int, spec_freelist_u8(opts.freelist), opts.magic_version))
+       && final(st).header_at@ == Some((spec_header_offset::<Header>(opts.reserved as int, true), Header { allocated: m.data_offset as u32, min_segment_size: opts.minimum_segment_size, discarded: 0 }))
+       && m.header_ptr == Either::<u32, Header>::Left(spec_header_offset::<Header>(opts.reserved as int, true) as u32)), // [C16]
+    r matches Ok(m) ==> (!opts.unify ==> final(st).sanity_at@ is None && final(st).header_at@ is None
+       && m.header_ptr == Either::<u32, Header>::Right(Header { allocated: (opts.reserved + 1) as u32, min_segment_size: opts.minimum_segment_size, discarded: 0 })), // [C16]
+//@@end
 
 // ---- From<Memory> for Arena: the arena handle caches the Memory's fields (both flavours) --------------------------------
 pub struct InnerTok {}
